@@ -95,6 +95,8 @@ func (t *tScript) SendCCS() error             { return t.s.SendCCS() }
 func (t *tScript) SendAppData(p []byte) error { return t.s.SendAppData(p) }
 func (t *tScript) PeerFinishedOK() bool       { return t.s.PeerFinishedOK }
 func (t *tScript) WriteProtected() bool       { return t.s.WriteProtected() }
+func (t *tScript) HasMaster() bool            { return len(t.s.Master()) > 0 }
+func (t *tScript) HeaderLen() int             { return 4 }
 
 // ---------------------------------------------------------------------------- DTLCP
 
